@@ -5,7 +5,7 @@
 //! queries asked and their answers; the Lean model replays the history) and evaluates the property
 //! itself against a reference map (`Ref`) — the ORACLE.  No known finding is left: F10 `UpdatePersisted`,
 //! `MaxCodePointPhrase` and F36 `FuzzyOverTombstoneOrPending` (prefix lookups over pending / tombstoned
-//! entries, fixed by 097161a) are repaired, so every failing exact lookup, prefix lookup or enumeration is
+//! entries, fixed by c3d9fb2) are repaired, so every failing exact lookup, prefix lookup or enumeration is
 //! reported as `new`.  `Tracker` follows the layering of the real structure for COVERAGE statistics only
 //! (how often the generated histories visit the states the fixed findings lived in).
 use chewing::dictionary::{
@@ -955,7 +955,7 @@ fn main() {
         Op::Update(ce4.clone(), "測".into(), 50, 7),
     ];
     guarded(&mut cx, "F10 witness", |cx| run_triebuf(cx, &p, &mut Rng::new(1), true, Some((vec![ce4.clone()], s)), 0));
-    // F36 (fixed by 097161a; was class FuzzyOverTombstoneOrPending): the prefix lookup honours the tombstone
+    // F36 (fixed by c3d9fb2; was class FuzzyOverTombstoneOrPending): the prefix lookup honours the tombstone
     // of a removed persisted entry, sees pending entries under other matching keys, and reports an updated
     // persisted entry with its new (lower) value
     let s = vec![
